@@ -122,7 +122,9 @@ def run(ctx):
             res.count("build-error:" + str(r.err[1]))
         for t in prog:
             res.count("top:" + t["k"])
-        if d is not None:
+        if d is not None and len(res.disagreements) >= 3:
+            res.disagreements.append({"stream": "sdk." + stream, "input": prog, "model": d, "code": "(not shrunk)"})
+        elif d is not None:
             small = H.shrink(prog, lambda q: H.compare_syntactic(
                 q, H.RealRun(execute=False).run(q), drv.call({"op": "sdk.run", "p": q})) is not None, 150)
             m2 = drv.call({"op": "sdk.run", "p": small})
@@ -144,7 +146,8 @@ def run(ctx):
         correspond(w, name)
         f = _leak_check(H, w, res, name)
         if f:
-            res.failures.append({"what": f["what"], "input": _shrink_leak(H, f), "kf": None})
+            res.failures.append({"what": f["what"], "kf": None,
+                                 "input": _shrink_leak(H, f) if len(res.failures) < 3 else f})
 
     # -- stream A: random well-scoped programs and adversarial ones (error paths: 17 nested loops, >16 M registers,
     #    bad handles, type errors)
@@ -167,7 +170,8 @@ def run(ctx):
         correspond(prog, "long-%d-flush-every-%d" % (n_ops, k))
         f = _leak_check(H, prog, res, "long")
         if f:
-            res.failures.append({"what": f["what"], "input": _shrink_leak(H, f), "kf": None})
+            res.failures.append({"what": f["what"], "kf": None,
+                                 "input": _shrink_leak(H, f) if len(res.failures) < 3 else f})
         res.count("long-sequence-ops", n_ops)
 
     # -- stream C: model-free leak oracle on the random programs' single operations, each repeated 20 times
@@ -181,7 +185,8 @@ def run(ctx):
         f = _leak_check(H, prog, res, "repeat-20")
         res.count("repeat-kind:" + op["k"])
         if f:
-            res.failures.append({"what": f["what"], "input": _shrink_leak(H, f), "kf": None})
+            res.failures.append({"what": f["what"], "kf": None,
+                                 "input": _shrink_leak(H, f) if len(res.failures) < 3 else f})
     if len(res.samples) < 4:
         res.samples.append({"long_sequence_head": H.long_sequence(rng, 3, 2)})
     return res
